@@ -444,10 +444,23 @@ def r05_4(ctx, counts) -> RuleResult:
                     if isinstance(tg, ast.Name):
                         built.add(tg.id)
 
+        # local aliases of a wrapped element: elem = item.value / node.elem
+        aliases: set[str] = set()
+        for x in walk_local(f.node):
+            if isinstance(x, (ast.Assign, ast.AnnAssign)) and x.value is not None:
+                vt = stmt_text(x.value)
+                if (vt.endswith('.value') and not vt.startswith('self.parser')
+                        and isinstance(x.value, ast.Attribute)) or vt.endswith('.elem'):
+                    tg = x.targets[0] if isinstance(x, ast.Assign) else x.target
+                    if isinstance(tg, ast.Name) and tg.id not in built:
+                        aliases.add(tg.id)
+
         def wrapped(e: ast.AST) -> bool:
             t = stmt_text(e)
             if isinstance(e, ast.Name) and e.id in built:
                 return False
+            if isinstance(e, ast.Name) and e.id in aliases:
+                return True
             return t.endswith('.value') and not t.startswith('self.parser') \
                 or t.endswith('.elem') or t.endswith('.document') and False
         for x in walk_local(f.node):
@@ -461,7 +474,9 @@ def r05_4(ctx, counts) -> RuleResult:
                 res.fail(finding('R05.4', f, x, f'{stmt_text(x.func)[:40]}()',
                                  f'`{stmt_text(x)[:60]}` mutates the wrapped input element'))
             if isinstance(x, (ast.Assign, ast.AugAssign)):
-                tg = x.targets if isinstance(x, ast.Assign) else [x.target]
+                tg0 = x.targets if isinstance(x, ast.Assign) else [x.target]
+                tg = [e2 for t0 in tg0
+                      for e2 in (t0.elts if isinstance(t0, (ast.Tuple, ast.List)) else [t0])]
                 for t in tg:
                     if isinstance(t, ast.Attribute) and t.attr in ('text', 'tail', 'attrib',
                                                                    'tag') \
